@@ -220,7 +220,23 @@ class SxPattern:
     def sub(self, repl, s, count=0):
         if self._sym(s):
             from .core import Unsupported
-            raise Unsupported('re.sub on a symbolic string')
+            from . import chars
+            if not callable(repl) and '\\' in repl:
+                raise Unsupported('re.sub with group references on a symbolic string')
+            if self._dist is None:
+                self._dist = _distinguished(self.pattern, self.flags)
+            rep = _representatives(s, self._dist)
+            out, pos, n = [], 0, 0
+            for m in self._p.finditer(rep):
+                if count and n >= count:
+                    break
+                out += s.cps[pos:m.start()]
+                r = repl(SxMatch(m, s)) if callable(repl) else repl
+                out += chars.as_cps(r)
+                pos = m.end()
+                n += 1
+            out += s.cps[pos:]
+            return chars.mk(out)
         return self._p.sub(repl, s, count)
 
     def subn(self, repl, s, count=0):
